@@ -52,6 +52,12 @@ WrapperDrawH(StdH(_, _, _, _), kind, par, hidden, script, cursor) ==
 
 WrapperReset(initialHidden, hidden) == initialHidden
 
+\* Copying a wrapper object (copy construction / assignment of distribution::basic, handing a
+\* distribution object to variate(generator, distribution) / make_variate, copying or moving a
+\* variate) copies the wrapped distribution, hidden state included: the copy continues exactly
+\* where a copy of the wrapped standard distribution would.
+WrapperCopy(hidden) == hidden
+
 \* enum distribution: all enumerators, i.e. the closed interval [0, max_value]
 EnumParams(maxIndex) == [a |-> Decorate("enum", 0), b |-> Decorate("enum", maxIndex)]
 
